@@ -1,6 +1,7 @@
 # C14: JSON and Markdown output is always well-formed, deterministic and faithful.
 import collections
 import enum
+import ipaddress
 import json
 import os
 import subprocess
@@ -38,6 +39,8 @@ def to_pyval(obj, depth=0):
     if attr.has(type(obj)):
         fields = [(name, getattr(obj, name)) for name in attr.fields_dict(type(obj))]
         return '(PAttrs [%s])' % '; '.join('(%s, %s)' % (plain(n), to_pyval(v, depth + 1)) for n, v in fields)
+    if isinstance(obj, (ipaddress.IPv4Network, ipaddress.IPv6Network)):
+        return '(POther %s)' % plain(str(obj))      # rendered as text, like every value that is not a container
     if hasattr(obj, '__dict__') and not isinstance(obj, type):
         raise Unsupported('plain object')
     if isinstance(obj, (list, tuple)):
@@ -63,12 +66,30 @@ def canonical(js):
     return json.dumps(json.loads(js, object_pairs_hook=collections.OrderedDict), separators=(',', ':'))
 
 
+HOSTILE = [b'a{b}', b'{0}', b'{', b'}', b'{result}', b'{{x}}', b'%s', b'%(x)s', b'%', b'a`b', b'a*b_c', b'a\\b', b'a|b', b'#x', b'<b>', b'&amp;']
+
+
+def hostile_texts(rng, v, n):
+    """Text inputs in which a name or value is replaced by characters that mean something to a formatter (str.format fields,
+    %-conversions, Markdown and HTML markup): a report generator must print them, not interpret them."""
+    import re
+    if not v or not all(32 <= c < 127 or c in (9, 10, 13) for c in v):
+        return []
+    runs = [m.span() for m in re.finditer(rb'[A-Za-z0-9_-]+', v)]
+    out = []
+    for a, b in rng.sample(runs, min(len(runs), n)):
+        out.append(v[:a] + rng.choice(HOSTILE) + v[b:])
+    if b';' in v:
+        out.append(v + b'; ' + rng.choice(HOSTILE) + b'=' + rng.choice(HOSTILE))
+    return out
+
+
 def objects(rng, per_vector):
     vectors = sweep.library_vectors()
     for cls in sorted(vectors, key=sweep.qualname):
         name = sweep.qualname(cls)
         for v in vectors[cls]:
-            for b in [v] + [sweep.mutate(rng, v) for _ in range(per_vector)]:
+            for b in [v] + [sweep.mutate(rng, v) for _ in range(per_vector)] + hostile_texts(rng, v, 2 + per_vector):
                 try:
                     obj, _ = cls.parse_immutable(b)
                 except Exception:  # pylint: disable=broad-except
@@ -117,6 +138,53 @@ def render(obj, fn):
     return Serializable._markdown_result(obj)[1]  # pylint: disable=protected-access
 
 
+def strict_loads(text):
+    """RFC 8259 JSON: the constants NaN / Infinity that Python's encoder writes for non-finite floats are not JSON"""
+    def refuse(c):
+        raise ValueError('non-JSON constant %s' % c)
+    return json.loads(text, parse_constant=refuse)
+
+
+def foreign_values(obj, depth=0, seen=None):
+    """the values the JSON traversal renders from their __dict__ (objects of other libraries: neither attrs classes, nor
+    named tuples, enumerations or containers), at any depth of an object"""
+    import attr
+    seen = set() if seen is None else seen
+    if depth > 8 or id(obj) in seen or isinstance(obj, (type, enum.Enum, str, bytes, bytearray, int, float)) or obj is None:
+        return
+    seen.add(id(obj))
+    if hasattr(obj, '_asdict') and not attr.has(type(obj)):
+        try:
+            obj = obj._asdict()  # pylint: disable=protected-access
+        except Exception:  # pylint: disable=broad-except
+            return
+    if isinstance(obj, dict):
+        for v in obj.values():
+            yield from foreign_values(v, depth + 1, seen)
+    elif attr.has(type(obj)):
+        for f in attr.fields(type(obj)):
+            try:
+                yield from foreign_values(getattr(obj, f.name), depth + 1, seen)
+            except Exception:  # pylint: disable=broad-except
+                pass
+    elif isinstance(obj, (list, tuple, set, frozenset)):
+        for v in obj:
+            yield from foreign_values(v, depth + 1, seen)
+    elif hasattr(obj, '__dict__'):
+        yield obj
+
+
+def observe(value):
+    """read every public data attribute of a value (properties included): reading is not a change of the object"""
+    for a in dir(value):
+        if a.startswith('_'):
+            continue
+        try:
+            getattr(value, a)
+        except Exception:  # pylint: disable=broad-except
+            pass
+
+
 def serialisation_failures(cls, name, b, obj):
     if not hasattr(obj, 'as_json') and hasattr(obj, '_asdict') and hasattr(obj, 'compose'):
         # report-only classes: rendered twice, and compared with the rendering of the equal parse-compose round trip
@@ -152,6 +220,11 @@ def serialisation_failures(cls, name, b, obj):
                 json.loads(out)
             except ValueError:
                 yield fn + '-malformed', 'as_json output is not accepted by json.loads'
+            else:
+                try:
+                    strict_loads(out)
+                except ValueError as e:
+                    yield fn + '-not-rfc8259', 'as_json output is accepted only by a lenient parser (%s)' % e
         try:
             if getattr(obj, fn)() != out:
                 yield fn + '-unstable', '%s gives a different result when called again' % fn
@@ -176,6 +249,62 @@ def serialisation_failures(cls, name, b, obj):
                         yield fn + '-roundtrip', '%s differs between an object and its parse-compose round trip' % fn
         except Exception:  # pylint: disable=broad-except
             pass
+
+    # an equal object whose foreign field values (ipaddress networks, URLs, ...) have been looked at by the caller
+    if hasattr(obj, 'as_json'):
+        try:
+            before = [getattr(obj, fn)() for fn in ('as_json', 'as_markdown')]
+            foreign = list(foreign_values(obj))
+            for v in foreign:
+                observe(v)
+            if foreign:
+                for fn, was in zip(('as_json', 'as_markdown'), before):
+                    if getattr(obj, fn)() != was:
+                        yield fn + '-observer-dependent', ('%s changes after the public attributes of a field value (%s) were read: '
+                                                           'equal objects serialise differently' % (fn, type(foreign[0]).__name__))
+        except Exception:  # pylint: disable=broad-except
+            pass
+
+def faithfulness_failures():
+    """Renderings that must keep what they render apart: different durations give different Markdown and JSON, and every term
+    of an SPF record (a record may name a mechanism more than once: two include: terms are the common case) is in the report."""
+    import datetime
+    from cryptoparser.httpx.header import HttpHeaderFieldValueAge
+    from cryptoparser.dnsrec.txt import DnsRecordTxtValueSpf
+    secs = [0, 1, 59, 3600, 86399, 86400, 86401, 172800, 31536000, 10 ** 9]
+    for fn in ('as_markdown', 'as_json'):
+        try:
+            outs = [getattr(HttpHeaderFieldValueAge(datetime.timedelta(seconds=k)), fn)() for k in secs]
+        except Exception as e:  # pylint: disable=broad-except
+            yield 'HttpHeaderFieldValueAge/%s' % fn, '%s of a duration fails with %s' % (fn, type(e).__name__), {'seconds': secs}
+            continue
+        for i, a in enumerate(outs):
+            for j in range(i + 1, len(outs)):
+                if a == outs[j]:
+                    yield ('timedelta/%s-not-injective' % fn, '%s renders the durations of %d s and %d s identically (%r)' % (fn, secs[i], secs[j], a.strip()[:40]),
+                           {'seconds': [secs[i], secs[j]], 'output': a})
+                    break
+            else:
+                continue
+            break
+    for text, needles in ((b'v=spf1 include:_spf.example.com include:spf.example.net ip4:192.0.2.0/24 ip4:198.51.100.0/24 -all',
+                           ['_spf.example.com', 'spf.example.net', '192.0.2.0', '198.51.100.0']),
+                          (b'v=spf1 a:one.example a:two.example mx:three.example mx:four.example ~all', ['one.example', 'two.example', 'three.example', 'four.example'])):
+        try:
+            rec = DnsRecordTxtValueSpf.parse_exact_size(text)
+        except Exception:  # pylint: disable=broad-except
+            continue
+        for fn in ('as_markdown', 'as_json'):
+            try:
+                out = getattr(rec, fn)()
+            except Exception as e:  # pylint: disable=broad-except
+                yield 'DnsRecordTxtValueSpf/%s' % fn, '%s fails with %s' % (fn, type(e).__name__), {'input': text.decode()}
+                continue
+            missing = [n for n in needles if n not in out]
+            if missing:
+                yield ('DnsRecordTxtValueSpf/repeated-mechanism-dropped', '%s of an SPF record that names a mechanism twice leaves out %s' % (fn, ', '.join(missing)),
+                       {'input': text.decode(), 'missing': missing, 'fn': fn})
+                break
 
 
 SEED_WORKER = r'''
@@ -263,6 +392,12 @@ def run(chk):
                 cases.append((name, b, to_pyval(obj), canonical(obj.as_json())))
             except (Unsupported, Exception):  # pylint: disable=broad-except
                 pass
+    seen_f = set()
+    for key, detail, payload in faithfulness_failures():
+        if key not in seen_f:
+            seen_f.add(key)
+            payload = dict(payload, predicate='faithful', key=key)
+            chk.violation(detail, payload, key, True)
     # correspondence: the Coq model of _json_traverse on the same objects (vm_compute inside coqc)
     if proved and cases:
         exprs = ['render 40 (traverse 40 %s)' % t for _, _, t, _ in cases]
@@ -317,7 +452,11 @@ def run(chk):
 def replay(path):
     with open(path) as f:
         r = json.load(f)
-    if 'class' in r and 'input' in r:
+    if r.get('predicate') == 'faithful':
+        fails = [(k, d) for k, d, _ in faithfulness_failures() if k == r.get('key')]
+        print(fails or 'no failure')
+        ok = not fails
+    elif 'class' in r and 'input' in r:
         mod, q = r['class'].rsplit('.', 1)
         cls = sweep.resolve(mod, q)
         obj, _ = cls.parse_immutable(bytes.fromhex(r['input']))
